@@ -127,9 +127,21 @@ pub fn alphabet(full: bool) -> Vec<Op> {
             Op::ReadlinkAbs(s("/l")),
             Op::Readlink(s("/s")),
             Op::Remove(s("/l")),
+            // the line helpers are single steps too: a block of lines is stored as one unit
+            Op::AppendLines(s("/a/f"), vec!["{L1}".into(), "{L2}".into()]),
+            Op::WriteLines(s("/a/f"), vec!["{W1}".into(), "{W2}".into()]),
+            Op::AppendLine(s("/a/f"), "{A}".into()),
         ]);
     }
     v
+}
+
+/// leaves the watchdog's books when a stress function returns
+pub struct ExitGuard;
+impl Drop for ExitGuard {
+    fn drop(&mut self) {
+        worker_exit();
+    }
 }
 
 pub fn tag_appends(program: &mut [Vec<Op>]) {
@@ -252,7 +264,7 @@ pub fn judge_execution(pc: &mut ProgCtx, e: &Execution, mem: &Memfs, no_lin: boo
                 if ok {
                     let tok = String::from_utf8_lossy(d).to_string();
                     let count: usize = tree.nodes.values().map(|n| if let Node::File { data, .. } = n { String::from_utf8_lossy(data).matches(&tok).count() } else { 0 }).sum();
-                    let removed_later = pc.program.iter().flatten().any(|o| matches!(o, Op::Remove(_) | Op::RemoveAll(_) | Op::WriteAll(..) | Op::MoveP(..) | Op::Copy(..)));
+                    let removed_later = pc.program.iter().flatten().any(|o| matches!(o, Op::Remove(_) | Op::RemoveAll(_) | Op::WriteAll(..) | Op::WriteLines(..) | Op::WriteH(..) | Op::MoveP(..) | Op::Copy(..)));
                     if count != 1 && !removed_later {
                         return Err(Failure::new(format!("append-lost-or-duplicated|{}", pname), format!("payload {} of a successful append_all occurs {} times in the final content", tok, count)));
                     }
@@ -385,7 +397,12 @@ fn programs(alpha: &[Op], shape: &[usize]) -> Vec<Vec<Vec<Op>>> {
 fn stress(c: &Ctx, threads: usize, rounds: usize) {
     // uncontrolled multi-core run (threads have no scheduler session): weaker evidence
     let alpha = alphabet(true);
+    // (the calling thread registers with the watchdog: a round in which the threads dead-lock each other on
+    // the real lock never ends, and the blocked-call rule is what reports it)
+    worker_enter();
+    let _guard = crate::props::c04::ExitGuard;
     for round in 0..rounds {
+        mark("stress", &json!({"round": round, "threads": threads}).to_string());
         let m = seed_state(1);
         let m = std::sync::Arc::new(m.upcast());
         let mut appended: Vec<String> = vec![];
@@ -436,7 +453,10 @@ fn stress(c: &Ctx, threads: usize, rounds: usize) {
 /// went through a write/append handle is in its file once all threads are done (a write-back that gives up when
 /// the guard is contended, instead of waiting for it, loses the data silently and never shows single-threaded)
 fn handle_stress(c: &Ctx, rounds: usize) {
+    worker_enter();
+    let _guard = ExitGuard;
     for round in 0..rounds {
+        mark("stress-handles", &json!({"round": round}).to_string());
         let m = Memfs::new();
         let _ = m.mkdir_p("/h");
         let _ = m.mkdir_p("/busy/a/b");
@@ -536,7 +556,10 @@ fn handle_stress(c: &Ctx, rounds: usize) {
 /// Uncontrolled: queries about entries nobody touches keep giving the one answer every sequential order gives,
 /// however busy the lock is (a query that gives up instead of waiting for the guard would not)
 fn bystander_stress(c: &Ctx, rounds: usize) {
+    worker_enter();
+    let _guard = ExitGuard;
     for round in 0..rounds {
+        mark("stress-bystander", &json!({"round": round}).to_string());
         let m = Memfs::new();
         let _ = m.write_all("/ro", b"const");
         let _ = m.chmod("/ro", 0o444);
